@@ -21,7 +21,7 @@ func init() {
 			"NOT decided: bit-exact round trip of simple8b/zstd/gorilla/snappy packing for every value sequence (value-level), corrupted (as opposed to truncated) length prefixes that overflow.",
 		Assumptions: append([]string{"K-BOUNDS: decoded length prefixes are non-negative and length arithmetic does not overflow"}, commonAssumptions...),
 		Technique:   "static analysis: constant/mode tables from the typed AST, field-coverage symmetry of codec pairs, error-before-use reachability on go/cfg, symbolic length lower-bound dataflow over the CFG",
-		Rules:       "C07.R1 R2 R3 R4 R5 R6 R7",
+		Rules:       "C07.R1 R2 R3 R4 R5 R6 R7 R8",
 	}
 }
 
@@ -49,6 +49,7 @@ func c07(c *an.Ctx) {
 	c07simple8b(c)
 	c07rows(c)
 	c07grow(c)
+	c07onerow(c)
 }
 
 // constsIn returns the family constants referenced in the function; when
@@ -782,7 +783,21 @@ func c07errflow(c *an.Ctx) {
 				r2.Fail("GenerateContext: Inf not marked", c.P.Pos(s.Node.Pos()), "the extreme-value marking does not test math.IsInf(v, 0): a column holding +Inf and -Inf reaches GorillaEncoding, whose running sum is NaN, and the encoder fails on a value the write path accepts")
 			}
 		}
-		// the marking loop must visit every value: it sits in a `for i := range values` before any early return that depends on data
+		// the marking loop must visit every value: no iteration skips the test, the loop is never left early
+		if stores.Len() > 0 && !r2.Failed() {
+			test := &an.Sites{F: gc, Desc: "extreme-value test"}
+			for _, s := range stores.List {
+				for p := gc.Parent(s.Node); p != nil; p = gc.Parent(p) {
+					if is, ok := p.(*ast.IfStmt); ok {
+						if v := gc.VertexOf(is.Cond); v >= 0 {
+							test.List = append(test.List, an.Site{V: v, Node: is.Cond})
+						}
+						break
+					}
+				}
+			}
+			gc.LoopVisitsAll(r2, test, "every value of the column is tested for NaN/Inf (the loop has no early exit)")
+		}
 	}
 	if ae := fn(r2, cmpPkg+":Float.adaptiveEncoding"); ae != nil {
 		gor := obj(r2, cmpPkg+":GorillaEncoding")
@@ -1161,4 +1176,59 @@ func c07grow(c *an.Ctx) {
 	}
 	r.AddSites(n)
 	r.Floor(10, "grow-by-(n-cap) appends in the repository")
+}
+
+// ---------------------------------------------------------------------- R8
+
+// c07onerow: the one-row block carries no null map: its reader takes an empty
+// payload for NULL.  The writer may therefore choose the one-row form only for
+// a column whose payload is not empty (a non-null empty string has an empty
+// payload and must go through the general form).
+func c07onerow(c *an.Ctx) {
+	const I = "engine/immutable"
+	r := c.Rule("C07.R8", "K-CONTRACT(writer/reader)", "one-row block: the reader reads an empty payload as NULL, so the writer's predicate implies a non-empty payload")
+	if f := fn(r, I+":DecodeColumnOfOneValue"); f != nil {
+		nilCount := obj(r, "lib/record:ColVal.NilCount")
+		st := f.Find(an.MStore("col.NilCount = 1", nilCount, func(g *an.Fn, e ast.Expr) bool { return types.ExprString(e) == "1" }))
+		r.AddSites(st.Len())
+		if st.Len() == 0 {
+			r.Note("the reader no longer maps an empty payload to NULL; the writer-side implication is still required by the stored files")
+		} else {
+			f.Guarded(r, st, "NULL exactly when the payload is empty", an.AtomIs("0==len(p0)", true))
+		}
+	}
+	if f := fn(r, I+":CanEncodeOneRowMode"); f != nil {
+		r.AddSites(1)
+		f.PredImplies(r, 0, "`0<len(p0.Val)`", "one-row form only for a non-empty payload")
+		f.PredImplies(r, 0, "`1==p0.Len`", "one-row form only for a single row")
+	}
+	// both encoders that emit a Block*One byte consult the predicate
+	n := 0
+	for _, d := range c.P.AllDecls() {
+		if !an.InPkg(d, I) {
+			continue
+		}
+		f := c.P.Fn(d)
+		if f == nil {
+			continue
+		}
+		one := f.Find(an.MNode("append(…, encoding.Block*One)", func(g *an.Fn, m ast.Node) bool {
+			ce, ok := m.(*ast.CallExpr)
+			if !ok || len(ce.Args) != 2 {
+				return false
+			}
+			if id, ok := ce.Fun.(*ast.Ident); !ok || id.Name != "append" {
+				return false
+			}
+			sel, ok := ce.Args[1].(*ast.SelectorExpr)
+			return ok && strings.HasPrefix(sel.Sel.Name, "Block") && strings.HasSuffix(sel.Sel.Name, "One")
+		}))
+		if one.Len() == 0 {
+			continue
+		}
+		n += one.Len()
+		f.Guarded(r, one, "one-row block byte only under CanEncodeOneRowMode", an.AtomLike(`^immutable\.CanEncodeOneRowMode\(`, true))
+	}
+	r.AddSites(n)
+	r.Floor(5, "one-row block emissions")
 }
